@@ -30,7 +30,13 @@ class C14(Check):
             "255..4096 octets, 128 messages, incomplete last frame) are delivered through the real "
             "serveTCPConn/readTCP under every segmentation class of the octet stream (at once, octet by octet, cut in "
             "two at every offset, every length prefix cut in two, fixed sizes, random cuts) with the per-message "
-            "oracles and one model case (read_frames + serve) per history. A case is non-trivial unless it is an ignored/none outcome; distinct by hash.")
+            "oracles and one model case (read_frames + serve) per history. Admitted queries malformed INSIDE a record "
+            "(consistent framing and RDLENGTH, default policy passes): OPT with every EDNS0 option code x every value "
+            "length 0..20 and around the larger layouts x random/zero/ones value x alone/second/first, lying option "
+            "lengths, OPT in other sections; SVCB/HTTPS with every parameter key x value length 0..34; one record of "
+            "every registered type with a valid RDATA cut at every length, zeros of every length, lying RDLENGTH, "
+            "extra octets - each through serveDNS (hook, buffer shaped as readTCP/readUDP shape it) and the real "
+            "loops: no panic, handler once iff it decodes, else the invalid callback once and one FORMERR reply. A case is non-trivial unless it is an ignored/none outcome; distinct by hash.")
     partial = [
         "the message decoder (Msg.unpack) is a parameter of the serve model: 'decodes' means what the real Unpack "
         "returns (its safety is property C02); the theorems hold for every decoder",
